@@ -111,18 +111,21 @@ func runPart(prog *gen.Program, stmts []gen.Stmt, bal env.Bal, vars ...map[strin
 	if len(vars) > 0 {
 		vs = vars[0]
 	}
-	return RunReal(pr, vs, env.New(env.Exact, bal, nil), nil)
+	return RunReal(pr, vs, env.New(c09StoreMode, bal, nil), nil)
 }
 
 // c09Check: splits = which split points to check (nil = all).
+// c09StoreMode: how the store of the whole run and of every part answers (exact, or omitting absent / zero entries).
+var c09StoreMode = env.Exact
+
 func c09Check(w *mc.Worker, c *seqCase, bal env.Bal, onlyLast bool, varsOpt ...map[string]string) {
 	var vars map[string]string
 	if len(varsOpt) > 0 {
 		vars = varsOpt[0]
 	}
 	n := len(c.Stmts)
-	whole := RunReal(c.PR, vars, env.New(env.Exact, bal, nil), nil)
-	key := c.Text + "|" + varsStr(vars) + "|" + balStr(bal)
+	whole := RunReal(c.PR, vars, env.New(c09StoreMode, bal, nil), nil)
+	key := c.Text + "|" + varsStr(vars) + "|" + balStr(bal) + "|" + c09StoreMode.String()
 	report := func(clause, msg, expected string) {
 		cs := Case{Script: c.Text, Vars: vars, Balances: balStr(bal), Observed: whole.Class() + ": " + postingsStr(whole.Postings) + " meta{" + metaStr(whole) + "}", Expected: expected}
 		if whole.Err != nil {
@@ -258,7 +261,13 @@ func runC09(w *mc.Worker) {
 		vl = 3
 	}
 	runVarSeqSpace(w, fmt.Sprintf("vars-L%d", vl), 2, vl, func(c *seqCase, vars map[string]string, bal env.Bal) { c09Check(w, c, bal, false, vars) })
-	runEdgeSeqSpace(w, fmt.Sprintf("edge-L%d", vl+1), 2, vl+1, func(c *seqCase, bal env.Bal) { c09Check(w, c, bal, false) })
+	runEdgeSeqSpace(w, fmt.Sprintf("edge-L%d", vl+1), 2, vl+1, func(c *seqCase, bal env.Bal) {
+		c09Check(w, c, bal, false)
+		// the same against a store that omits absent and zero entries (whole run and every part)
+		c09StoreMode = env.Sparse
+		c09Check(w, c, bal, false)
+		c09StoreMode = env.Exact
+	})
 	core := append(append([]op{}, coreOps()[:22]...), metaOps()...)
 	if w.Tier == "quick" {
 		seq("seq-L2", "all sequences of length 2 over the 35-statement alphabet (28 money statements + 7 metadata calls, <= 2 deviations) x 30 sheets, every split", 2, 2, 2, sheetsQ)
